@@ -183,18 +183,16 @@ def run(ctx, anchors=None):
         else:
             c_I += 1
     stepper = fb.fn("StepScript", file="debugger/interpreter.cpp")
-    # every non-failed state advances the marker exactly once in the stepper's commitment switch
-    sw = [s_ for s_ in S.find_switches(stepper) if "Iterate" in astq.estr(s_["cond"])]
-    adv_ok = False
-    if sw:
-        adv_ok = True
-        for g in S.case_groups(sw[0]):
-            names = g.short_names()
-            incs = [x for x in g.nodes() if x["k"] == "un" and x["op"] == "++" and astq.estr(x["e"]).endswith("curr_op_seq")]
-            if "Failed" in names:
-                adv_ok = adv_ok and len(incs) == 0
-            else:
-                adv_ok = adv_ok and len(incs) == 1
+    # every non-failed state advances the marker exactly once, Failed not at all: read off the paths of the stepper per state of
+    # Iterate() (G-SYM outcomes; the dispatch may be a switch or an if-chain)
+    from . import c03_setup
+    _st, prol = c03_setup.commitment_prologue(fb, prog)
+    adv_ok = bool(prol)
+    for name_, outs_ in prol.items():
+        for o_ in outs_:
+            want_ = 0 if name_ == "Failed" else 1
+            adv_ok = adv_ok and c03_setup.advance_of(o_) == want_
+    sw = []
     ctx.site(4)
     ctx.inst(adv_ok, "R12.2", "one-advance-per-commitment-step", stepper.loc(sw[0]) if sw else stepper.loc(),
              "each non-failed commitment state advances the marker exactly once, Failed does not")
